@@ -174,3 +174,61 @@ def run_pass(runmod, prop, kind, tier, seed, st, cfgs, nreq, jobs, groups=None, 
     print('[%s] %s pass: %d requests, %d events, %d reports, %d violating events, %.0fs' % (prop.PROP, kind, cov['requests'], cov['events'], cov['reports'],
                                                                                           agg['violations'], cov['wall_s']), flush=True)
     return cov
+
+
+# ------------------------------------------------------------------ exhaustive 16-bit sweeps against the primitive
+
+def _exh_task(t):
+    try:
+        p = subprocess.run([t['bin']], input=t['line'] + '\n', capture_output=True, text=True, timeout=3600)
+    except subprocess.TimeoutExpired:
+        return t, None, 'timeout'
+    out = [l for l in p.stdout.split('\n') if l and not l.startswith('#')]
+    if p.returncode != 0 or not out:
+        return t, None, 'rc=%s %s' % (p.returncode, p.stderr[-300:])
+    return t, out[0], None
+
+
+def exhaustive16(runmod, prop, group, tier, seed, st, jobs):
+    """All operand pairs (thorough) or 1/128 of the first-operand space x all second operands (quick) of the four 16-bit
+    configurations and the two 8-bit ones, each total operation compared in-process with the Rust primitive."""
+    t0 = time.time()
+    paths, _ = runmod.build(['exh'], 'rel')
+    tasks = []
+    rng = random.Random(core.h64('%d/exh/%s' % (seed, prop.PROP)))
+    for cname in ('u8x1', 'i8x1', 'u8x2', 'i8x2', 'u16x1', 'i16x1'):
+        span = 1 << core.Cfg(cname).bits
+        if span == 256:
+            chunks = [(0, 256)]
+        elif tier == 'thorough':
+            chunks = [(a, a + 512) for a in range(0, span, 512)]
+        else:
+            # 8 slices of 64 first operands: the ends of the range plus random positions
+            starts = [0, span - 64, span // 2 - 32, span // 2] + [rng.randrange(0, span - 64) for _ in range(4)]
+            chunks = [(a, a + 64) for a in starts]
+        for lo, hi in chunks:
+            tasks.append({'bin': paths['exh'], 'cfg': cname, 'line': '%s %s d%d d%d' % (cname, prop.BIN, lo, hi)})
+    evals = bad = 0
+    with cf.ProcessPoolExecutor(max_workers=jobs) as ex:
+        for t, line, err in ex.map(_exh_task, tasks, chunksize=1):
+            if err:
+                st['inconclusive'].append('exhaustive sweep failed on %s: %s' % (t['line'], err))
+                continue
+            o = core.parse_outcome(line.split('=', 1)[1])
+            evals += o[0]
+            st['events'] += o[0]
+            st['requests'] += 1
+            st['ops']['exhaustive16:' + t['cfg']] += o[0]
+            if o[1]:
+                bad += o[1]
+                st['violations'] += o[1]
+                runmod.add_violation(st, prop, core.Cfg(t['cfg']), 'rel', t['line'], 'exhaustive16', o[2].decode('utf8', 'replace'),
+                                     'the Rust primitive of the same width (executed in-process)', '%d of the swept operand pairs disagree with the primitive' % o[1])
+    full = tier == 'thorough'
+    label = '16-bit types %s vs the primitive: %s' % (', '.join(('u8x2', 'i8x2', 'u16x1', 'i16x1')),
+                                                       'ALL 2^32 operand pairs' if full else '512 of 65536 first operands x all second operands')
+    st['exhaustive'].append(label)
+    st['classes']['exhaustive sweep against the primitive (8/16-bit)'] += len(tasks)
+    st['nontrivial'].add(core.h64('exh/%s/%s' % (prop.PROP, tier)))
+    print('[%s] exhaustive16 pass: %d evaluations, %d mismatches, %.0fs' % (prop.PROP, evals, bad, time.time() - t0), flush=True)
+    return {'evaluations': evals, 'mismatches': bad, 'complete_pair_space': full, 'wall_s': round(time.time() - t0, 1)}
